@@ -109,9 +109,10 @@ class NatBox:
     No hair-pinning. Hosts behind the box have private addresses on ``subnet``.
     """
 
-    def __init__(self, net: "SimNet", public_ip: str, kind: str) -> None:
+    def __init__(self, net: "SimNet", public_ip: str, kind: str, pool: tuple = ()) -> None:
         self.net = net
         self.public_ip = public_ip
+        self.pool = (public_ip, *pool)          # external addresses of the box; hosts are spread over them in turn
         self.kind = kind
         self.map_out: dict[tuple, tuple] = {}      # private addr -> public addr
         self.map_in: dict[tuple, tuple] = {}       # public addr -> private addr
@@ -129,7 +130,9 @@ class NatBox:
         pub = self.map_out.get(private_src)
         if pub is None:
             self.next_port += 1
-            pub = (self.public_ip, self.next_port)
+            hosts = sorted(self.inside)
+            ip = self.pool[hosts.index(private_src) % len(self.pool)] if private_src in self.inside else self.public_ip
+            pub = (ip, self.next_port)
             self.map_out[private_src] = pub
             self.map_in[pub] = private_src
         self.contacted.setdefault(pub, set()).add(dst)
@@ -184,7 +187,8 @@ class SimNet:
         self.nodes.pop(_norm(address), None)
 
     def add_nat(self, box: NatBox) -> None:
-        self.nat_by_ip[box.public_ip] = box
+        for ip in box.pool:
+            self.nat_by_ip[ip] = box
 
     def put_behind(self, ep: SimEndpoint, box: NatBox) -> None:
         addr = _norm(ep.wan_address)
